@@ -126,6 +126,9 @@ def run(tier):
     exp = os.path.join(wd, "exhaust.ndjson")
     run_harness("vh-driver", ["c02", "exhaust", exp])
     ex = read_ndjson(exp)[0]
+    if "panic" in ex:
+        v.violation("full stream-id space cycle: the real handler map panicked (an id handed out while still owed / bookkeeping broken): %s" % ex["panic"][:300], [ex])
+        ex = {"allocated": 32768, "distinct": 32768, "min": 0, "max": 32767, "wrong_owner": 0, "realloc_equals_freed": True, "extra_ok": False, "again_ok": False, "panic": ex["panic"][:300]}
     if not (ex["allocated"] == 32768 and ex["distinct"] == 32768 and ex["min"] == 0 and ex["max"] == 32767
             and ex["wrong_owner"] == 0 and ex["realloc_equals_freed"]):
         v.violation("full stream-id space cycle broke uniqueness / ownership: %s" % json.dumps(ex), [ex])
@@ -145,6 +148,10 @@ def run(tier):
     nbulk = 6000 if thorough else 2600
     scheds.append([["B", 1, nbulk], ["Y", 0], ["C", 7], ["C", 2050], ["RA", 0], ["Y", 0]])
     scheds.append([["B", 1, 300], ["Y", 0], ["RA", 0], ["Y", 0], ["B", 301, 300], ["Y", 0], ["RA", 0], ["Y", 0]])
+    # long histories: one request stays unanswered while tens of thousands of others pass through the connection (request-id and
+    # stream-id bookkeeping must not wrap onto it); then it is abandoned while younger requests are unanswered
+    for n in ((32765, 65533) if thorough else (65533,)):
+        scheds.append([["S", 1], ["Y", 0], ["Q", 0, n], ["B", 2, 5], ["Y", 0], ["C", 1], ["Y", 0], ["RA", 0], ["Y", 0], ["Q", 100000, 40], ["S", 9], ["Y", 0]])
     ntr = 0
     for coal in (True, False):
         sub = scheds if coal else rnd.sample(scheds, min(len(scheds), 3000))
